@@ -233,6 +233,7 @@ func c08Projects(ctx *Ctx, r *Rng) {
 	n := ctx.Budget(400, 20000)
 	cases := 0
 	var cutProjects []Project
+	buildCorrespondenceFixtureProjects(ctx)
 	defer func() {
 		// the catalog-construction model on the forests of multi-file projects (with single faults in some)
 		buildCorrespondenceProjects(ctx, cutProjects, "documents cut into included files (plain and with a line mutant in one file)")
